@@ -113,8 +113,8 @@ Section Final.
     pose proof (fin_tomb ws fixed regen alloc H1 H2 H3) as F.
     destruct (resync_db sync_new fixed regen alloc (replay empty sync_old [] ws)) as [rs n] eqn:E. cbn in *.
     intros u Hu.
-    assert (HE : seteq (effective rs (finish ifixed regen n ps) u)
-                       (effective (replay empty sync_new [] ws) (invalidate_all (finish ifixed regen n ps)) (inval_user u))).
+    assert (HE : seteq (effective rs (finish fixed ifixed regen n ps) u)
+                       (effective (replay empty sync_new [] ws) (invalidate_all (finish fixed ifixed regen n ps)) (inval_user u))).
     { eapply seteq_trans; [apply coherent_effective; [exact Hc' | exact Hu]|].
       apply effective_gequiv. apply fin_gequiv. exact F. }
     split; [exact HE|]. apply visible_eq; [eapply fin_vequiv; exact F | exact HE].
@@ -168,11 +168,12 @@ Section Final.
 
   Lemma idempotent : forall (db : list doc) fixed ifixed regen alloc alloc' ps,
     let r := run sync_new fixed ifixed regen alloc db ps in
-    run sync_new fixed ifixed false alloc' (fst (fst r)) (snd r) = (fst (fst r), 0, snd r).
+    run sync_new fixed ifixed false alloc' (fst (fst r)) (snd r) =
+    (fst (fst r), 0, if sw_inval fixed then invalidate_all (snd r) else snd r).
   Proof.
     intros db fixed ifixed regen alloc alloc' ps. unfold run.
     pose proof (resync_db_idem body sync_new fixed regen alloc alloc' db) as H.
-    destruct (resync_db sync_new fixed regen alloc db) as [rs n]. cbn in *. rewrite H. reflexivity.
+    destruct (resync_db sync_new fixed regen alloc db) as [rs n]. cbn in *. rewrite H. unfold finish at 1. cbn. rewrite orb_false_r. reflexivity.
   Qed.
 
   Lemma regen_increase : forall (db : list doc) fixed alloc,
